@@ -22,6 +22,9 @@ pub enum Chain {
     Paged(i32),
     /// [EntriesOnly, PagedResults]
     EntriesPaged(i32),
+    /// a user-defined adapter that passes this many items and then fails (harness-defined,
+    /// public Adapter trait)
+    FailAfter(usize),
 }
 
 #[derive(Clone, Debug, Serialize, Deserialize, PartialEq, Eq, Hash, PartialOrd, Ord)]
@@ -39,6 +42,8 @@ pub enum Call {
     /// Ldap::search() (EntriesOnly + collect)
     Search { marker: String, timeout: Option<u64> },
     Start { marker: String, chain: Chain, timeout: Option<u64>, ctrl: bool, opts: bool, own_paging: bool },
+    /// like Start with own_paging, but the caller's paging control comes first / alone
+    StartOwnPaging { marker: String, chain: Chain, order: u8 },
     Next,
     Finish,
     Abandon(AbTarget),
@@ -86,6 +91,9 @@ pub struct Plan {
     pub cookie: CookieStyle,
     /// the server never answers this request
     pub silent: bool,
+    /// paged searches: after this many pages the server goes silent (0 = never)
+    #[serde(default)]
+    pub silent_after_pages: usize,
 }
 
 impl Default for Plan {
@@ -99,6 +107,7 @@ impl Default for Plan {
             total: 0,
             cookie: CookieStyle::Distinct,
             silent: false,
+            silent_after_pages: 0,
         }
     }
 }
